@@ -71,9 +71,9 @@ Notation "e1 ≠ e2" := (UnOp NegOp (BinOp EqOp e1%E e2%E)) (at level 70) : expr
 Notation "~ e" := (UnOp NegOp e%E) (at level 75, right associativity) : expr_scope.
 Notation "e1 && e2" := (If e1%E e2%E (Val (LitV (LitBool false)))) (only parsing) : expr_scope.
 Notation "e1 || e2" := (If e1%E (Val (LitV (LitBool true))) e2%E) (only parsing) : expr_scope.
-Definition to_u64 : val := PrimV (PExt "to_u64") [].
-Definition to_u32 : val := PrimV (PExt "to_u32") [].
-Definition to_u8 : val := PrimV (PExt "to_u8") [].
+Definition to_u64 : val := PrimV PToU64 [].
+Definition to_u32 : val := PrimV PToU32 [].
+Definition to_u8 : val := PrimV PToU8 [].
 
 (* binding forms *)
 Notation "'rec:' f x := e" := (Rec f%binder x%binder e%E)
@@ -116,13 +116,13 @@ Notation "'let:' ( ( ( a1 , a2 ) , a3 ) , a4 ) := e1 'in' e2" :=
 Definition Skip : expr := App (Val (LamV BAnon (Val (LitV LitUnit)))) (Val (LitV LitUnit)).
 Definition Continue : val := LitV (LitBool true).
 Definition Break : val := LitV (LitBool false).
-Definition For : val := PrimV (PExt "For") [].
+Definition For : val := PrimV PFor [].
 Notation "'for:' cond ; post := e" := (For cond%E e%E post%E)
   (at level 200, cond, post at level 99, e at level 200) : expr_scope.
-Definition forSlice (t : ty) : val := PrimV (PExt "forSlice") [].
+Definition forSlice (t : ty) : val := PrimV (PForSlice t) [].
 Notation "'ForSlice' t k v s body" := (forSlice t (Lam k%binder (Lam v%binder body%E)) s%E)
   (at level 10, t, k, v, s, body at level 9) : expr_scope.
-Definition MapIter : val := PrimV (PExt "MapIter") [].
+Definition MapIter : val := PrimV PMapIter [].
 Definition Panic (msg : string) : expr := App (Val (PrimV (PPanic msg) [])) (Val (LitV LitUnit)).
 Definition Linearize : expr := App (Val (PrimV PLinearize [])) (Val (LitV LitUnit)).
 
